@@ -303,6 +303,6 @@ func gen(r *rand.Rand, tier string, n int) []any {
 }
 
 func main() {
-	common.Main(common.Prop{ID: "C07", Gen: gen, Run: run, QuickN: 500, ThoroughN: 8000,
+	common.Main(common.Prop{ID: "C07", Gen: gen, Run: run, QuickN: 500, ThoroughN: 4000,
 		Preamble: "Open Scope Z_scope.\n"})
 }
